@@ -537,6 +537,7 @@ type sumKey struct {
 
 var sumCache = map[sumKey][]Atom{}
 var sumBusy = map[sumKey]bool{}
+var sumDepth int
 
 func condKey(conds []ResultCond) string {
 	s := ""
@@ -555,11 +556,12 @@ func (p *Prog) Summary(fn *ssa.Function, conds []ResultCond) []Atom {
 	if s, ok := sumCache[k]; ok {
 		return s
 	}
-	if sumBusy[k] {
+	if sumBusy[k] || sumDepth > 24 {
 		return nil
 	}
 	sumBusy[k] = true
-	defer delete(sumBusy, k)
+	sumDepth++
+	defer func() { delete(sumBusy, k); sumDepth-- }()
 	fi := p.Info(fn)
 	var common map[string]Atom
 	type retSet struct {
@@ -593,6 +595,33 @@ func (p *Prog) Summary(fn *ssa.Function, conds []ResultCond) []Atom {
 			// pass-through: results that are results of one call g with matching indices
 			if g, call := fi.passThrough(r, conds); g != nil {
 				for _, a := range p.importSummary(fi, call, g, conds) {
+					set[a.s] = a
+				}
+				// the pass-through itself: g(...)#k has the asked-for outcome
+				ct := fi.T(call)
+				nres := call.Common().Signature().Results().Len()
+				for _, cnd := range conds {
+					var rt *Term = ct
+					if nres > 1 {
+						rt = mk(TRes, "", nil, nil, ct)
+						rt.Idx = cnd.Idx
+						rt.s = rt.render()
+					}
+					var rhs *Term
+					switch cnd.Const {
+					case "nil":
+						rhs = mk(TNil, "nil", nil, nil)
+					case "nonnil":
+						continue
+					case "true":
+						rhs = termTrue
+					case "false":
+						rhs = termFalse
+					default:
+						rhs = mk(TConst, "", nil, nil)
+						rhs.s = cnd.Const
+					}
+					a := mkAtom("==", rt, rhs)
 					set[a.s] = a
 				}
 			}
